@@ -255,15 +255,24 @@ def _unit(unit):
     return acc
 
 
+ADVERSARIAL_NAMES = ["zz_unknown", "keys", "values", "items", "get", "contains_column", "metadata", "registry", "query", "__table__",
+                     "__class__", "__mapper__", "_sa_class_manager", "__init__", "columns", "c", "primary_key", "name", "description"]
+
+
 def unknown_fields(ctx):
-    zz = T.I("zz_unknown")
+    for nm in ADVERSARIAL_NAMES:
+        _unknown_field(ctx, nm)
+
+
+def _unknown_field(ctx, fname):
+    zz = T.I(fname)
     terms = [T.binop("Eq", zz, T.Int(1)), T.binop("Eq", T.Int(1), zz), T.call("contains", zz, T.Str("a")), T.call("contains", typed.F("s"), zz),
              T.binop("Gt", T.binop("Add", typed.F("n"), zz), T.Int(1)), T.binop("In", zz, T.lst(T.Int(1), T.Int(2))), T.binop("Eq", zz, T.NULL),
              T.unop("Not", T.binop("Eq", zz, T.Int(1))), T.binop("And", T.binop("Eq", typed.F("n"), T.Int(1)), T.binop("Lt", zz, T.Int(2))),
              T.binop("Eq", T.call("length", zz), T.Int(1)), T.binop("Eq", T.call("year", zz), T.Int(2020)), T.binop("Eq", T.call("tolower", zz), T.Str("a")),
              T.binop("Eq", T.call("round", zz), T.Int(1)), T.binop("Eq", T.call("substring", zz, T.Int(1)), T.Str("a"))]
-    rel = [T.binop("Eq", T.path("blog", "zz_unknown"), T.Int(1)), T.lam(T.I("comments"), "Any", "c", T.binop("Eq", T.path("c", "zz_unknown"), T.Int(1))),
-           T.binop("Eq", T.path("zz_unknown", "title"), T.Str("x")), T.lam(T.I("zz_unknown"), "Any")]
+    rel = [T.binop("Eq", T.path("blog", fname), T.Int(1)), T.lam(T.I("comments"), "Any", "c", T.binop("Eq", T.path("c", fname), T.Int(1))),
+           T.binop("Eq", T.path(fname, "title"), T.Str("x")), T.lam(T.I(fname), "Any")]
     from odata_query.sqlalchemy import apply_odata_core, apply_odata_query
     M, _ = sa_h.scalar_model(("n", "s"))
     P = sa_h.relational()["Post"]
@@ -279,13 +288,13 @@ def unknown_fields(ctx):
                     apply_odata_core(sa.select(model.__table__), text)
                 out = "accepted"
             except exceptions.InvalidFieldException as e:
-                out = "InvalidFieldException" if e.field_name == "zz_unknown" else "InvalidFieldException(wrong name %r)" % e.field_name
+                out = "InvalidFieldException" if e.field_name == fname else "InvalidFieldException(wrong name %r)" % e.field_name
             except Exception as e:  # noqa
                 out = type(e).__name__
             ctx.outcome(("unknown-field", style, out))
             if out != "InvalidFieldException":
                 ctx.violation("unknown-field:sa-%s:%s" % (style, out), {"filter": text, "backend": "sa-" + style, "kind": "unknown-field", "outcome": out,
-                                                                         "expected": "InvalidFieldException('zz_unknown')"})
+                                                                         "field": fname, "expected": "InvalidFieldException(%r)" % fname})
 
 
 def run(ctx):
